@@ -406,9 +406,13 @@ class CompiledTemplateManager(object):
         :param tables.TableGroup table_group: The Table Group used to instantiate the Template.
         :return:
         """
+        # The content of a table group depends on the in-stream (extra) table
+        # entries as well as on its key: a template compiled before a table
+        # definition message must not be reused after it.
         key_of_compiled_template = (
             tuple(template.original_descriptor_ids),
-            table_group.key
+            table_group.key,
+            TableGroupCacheManager.extra_entries_generation()
         )
         log.debug('Getting compiled template of key: {}'.format(key_of_compiled_template))
         compiled_template = self.cache.get(key_of_compiled_template, None)
